@@ -133,6 +133,7 @@ def _feat(e, what, mode):
     subs = lang.subterms(e)
     return {
         "head": lang.head(e),
+        "operand_head": lang.head(e[3]) if e[0] == "U" else None,
         "what": what,
         "mode": mode,
         "contains_int_floordiv": any(s[0] == "B" and s[1] == "floordiv" and lang.ty(s).out[0] != "real" for s in subs),
